@@ -183,6 +183,11 @@ impl C01 {
             _ => return,
         };
         obs.eval();
+        // half of the runs: the -o file exists already and is longer than the model (an earlier export of a larger project)
+        if crate::rng::fnv64(origin.as_bytes()) % 2 == 0 {
+            let _ = std::fs::write(&out, format!("{{\"earlier\": \"{}\"}}\n", "x".repeat(400_000)));
+            obs.count("thor:-o onto an existing longer file");
+        }
         let r = match run(&bin, &[&f, "-o", &o], None) {
             Some(r) => r,
             None => {
@@ -339,7 +344,7 @@ impl Property for C01 {
         "C01"
     }
     fn rule(&self) -> String {
-        "the built binaries hulc2model and thor are spawned on the 12 shipped project directories and on synthetic project directories written by the harness's printers (a quarter with a copied VyP/GT system section, half with generated system sections, most with harness-made KyG/tbl files giving wall-only, window-only or two-sided overrides) x {default, --use-extra} x RUST_LOG {unset, info, debug}; stdout/stderr/exit status captured byte-exactly: stdout must hold exactly one JSON value (serde_json stream deserialiser) that loads to a model equal in every field (Debug text) to hulc2model::collect_hulc_data for the same directory; 4 kinds of directories without project: non-zero exit and no JSON value at any '{'/'[' offset of stdout; thor FILE -o OUT: OUT loads to the library's model (thor's own stdout is recorded, not judged); in-process: bytes arriving at fd 1 during library calls are counted and must be 0, also over generated projects whose system sections (VyP systems x equipment x terminal units, on-site production and ventilation records, GT loops/plant/air systems/zones; floor: 75 of 82 kinds seen in converted projects) drive every branch of the systems parser that runs inside each conversion; for each of these converted models as_json() (what the tool prints) is loaded back in process and must equal the model, a third of the projects carrying edge values (0, 1e-6, 1e6) in data attributes; thorough repeats with the release-profile binaries; non-trivial = distinct (directory, option, RUST_LOG, profile) run".into()
+        "the built binaries hulc2model and thor are spawned on the 12 shipped project directories and on synthetic project directories written by the harness's printers (a quarter with a copied VyP/GT system section, half with generated system sections, most with harness-made KyG/tbl files giving wall-only, window-only or two-sided overrides) x {default, --use-extra} x RUST_LOG {unset, info, debug}; stdout/stderr/exit status captured byte-exactly: stdout must hold exactly one JSON value (serde_json stream deserialiser) that loads to a model equal in every field (Debug text) to hulc2model::collect_hulc_data for the same directory; 4 kinds of directories without project: non-zero exit and no JSON value at any '{'/'[' offset of stdout; thor FILE -o OUT (OUT absent, or present and longer than the model): OUT loads to the library's model (thor's own stdout is recorded, not judged); in-process: bytes arriving at fd 1 during library calls are counted and must be 0, also over generated projects whose system sections (VyP systems x equipment x terminal units, on-site production and ventilation records, GT loops/plant/air systems/zones; floor: 75 of 82 kinds seen in converted projects) drive every branch of the systems parser that runs inside each conversion; for each of these converted models as_json() (what the tool prints) is loaded back in process and must equal the model, a third of the projects carrying edge values (0, 1e-6, 1e6) in data attributes; thorough repeats with the release-profile binaries; non-trivial = distinct (directory, option, RUST_LOG, profile) run".into()
     }
     fn assumptions(&self) -> Vec<String> {
         vec!["binaries are built by ./check from /repo's working tree without the verification cfg (dev profile; thorough also the workspace release profile)".into(), "the Windows GUI is out of scope".into()]
@@ -362,6 +367,7 @@ impl Property for C01 {
             ("rust_log:info".into(), 2),
             ("rust_log:debug".into(), 2),
             ("thor:-o".into(), 10),
+            ("thor:-o onto an existing longer file".into(), 3),
             ("negative_runs".into(), 8),
             ("library_calls_with_stdout_watched".into(), 30),
             ("models_with_one_sided_overrides".into(), tier.pick(1, 3)),
